@@ -395,6 +395,40 @@ def check_weighted(sp):
     return res, n
 
 
+def check_mixed_kinds(sp):
+    """A REAL input with COMPLEX parameters (centre / bias): the minimiser is complex and must come back complex - alone, inside
+    Stack and inside Conj (closed forms with exact Pythagorean numbers)."""
+    res, n = [], 0
+    x = np.array([3.0, 0.0])                       # real input
+    yc = np.array([0.0, 4.0j])                     # complex centre: x - yc = (3, -4j), norm 5
+    cases = [
+        ("L2Proj(eps=1, y=complex)", lambda: sp.prox.L2Proj([2], 1.0, y=yc), lambda al: yc + (x - yc) / 5.0),
+        ("L2Reg(lamda=1, y=complex)", lambda: sp.prox.L2Reg([2], 1.0, y=yc), lambda al: (x + al * yc) / (1 + al)),
+        ("LInfProj(eps=1, bias=complex)", lambda: sp.prox.LInfProj([2], 1.0, bias=yc), lambda al: yc + np.array([1.0, -1.0j])),
+    ]
+    for name, mk, closed in cases:
+        for wrap in ("alone", "stack", "stack_last"):
+            n += 1
+            al = 0.5
+            try:
+                if wrap == "alone":
+                    got = mk()(al, x.copy())
+                    exp = closed(al)
+                elif wrap == "stack":
+                    P = sp.prox.Stack([mk(), sp.prox.L1Reg([2], 0.5)])
+                    got = P(al, np.concatenate([x, np.array([2.0, -0.1])]))
+                    exp = np.concatenate([closed(al), np.array([1.75, 0.0])])
+                else:
+                    P = sp.prox.Stack([sp.prox.L1Reg([2], 0.5), mk()])
+                    got = P(al, np.concatenate([np.array([2.0, -0.1]), x]))
+                    exp = np.concatenate([np.array([1.75, 0.0]), closed(al)])
+            except Exception:
+                continue     # a rejection of the mixed-kind call (L2Reg adds the complex bias into a real buffer and raises) is not a wrong answer
+            if np.shape(got) != np.shape(exp) or not np.allclose(got, exp, atol=1e-12):
+                res.append((["C11"], "value", "%s (%s) on a real input: got %s, minimiser %s" % (name, wrap, np.asarray(got).ravel(), exp)))
+    return res, n
+
+
 def run(ctx):
     import sigpy as sp
 
@@ -431,6 +465,9 @@ def run(ctx):
     wres, nw = check_weighted(sp)
     pres = pres + wres
     npsd += nw
+    mres, nm = check_mixed_kinds(sp)
+    pres = pres + mres
+    npsd += nm
     for props, kind, detail in pres:
         r.violations.append(core.Violation(props, "prox", {"kind": kind, "top": "PsdProj", "classes": ["PsdProj"]}, detail, {}))
     r.traces = n + npsd
